@@ -59,6 +59,11 @@ pub struct VerdictCase {
     /// 0 = no ServerSettings, 1 / 2 = version sent
     pub server_v: u8,
     pub host_len: u8,
+    /// Some((capacity, yields)): the calls are started without waiting for each other's SYN, over a
+    /// transport of this capacity and with these forced pre-emptions at the H1 points - their
+    /// open_stream calls really overlap (which id belongs to which call is read from the destinations)
+    #[serde(default)]
+    pub overlap: Option<(usize, Vec<u8>)>,
 }
 
 pub struct VerdictFam;
@@ -134,8 +139,12 @@ impl Family for VerdictFam {
         )
             .prop_map(|(answers, stray)| Plan { answers, stray });
         let death = proptest::option::weighted(0.3, (delay_strategy(), prop_oneof![Just(Death::PeerEof), Just(Death::ReadErr), Just(Death::Alert)]));
-        (proptest::collection::vec(plan, 1..=6), death, 0u8..3, prop_oneof![Just(9u8), Just(1), Just(255)])
-            .prop_map(|(calls, death, server_v, host_len)| VerdictCase { calls, death, server_v, host_len })
+        let overlap = proptest::option::weighted(
+            0.3,
+            (prop_oneof![Just(16usize), Just(64), Just(1usize << 20)], proptest::collection::vec(prop_oneof![3 => Just(0u8), 2 => Just(1u8), 1 => Just(2u8), 1 => Just(3u8)], 0..40)),
+        );
+        (proptest::collection::vec(plan, 1..=6), death, 0u8..3, prop_oneof![Just(9u8), Just(1), Just(255)], overlap)
+            .prop_map(|(calls, death, server_v, host_len, overlap)| VerdictCase { calls, death, server_v, host_len, overlap })
             .boxed()
     }
     fn run(&self, case: &VerdictCase, _cx: &CaseCtx) -> CaseResult {
@@ -148,7 +157,11 @@ impl Family for VerdictFam {
             let client = Arc::new(Client::new("pw", "127.0.0.1:1".to_string(), name, tls, default_padding()));
             client.stop_session_pool_cleanup().await;
             let pool = client.verif_session_pool();
-            let mut l = link(PipeParams::default(), PipeParams::default());
+            let overlap = case.overlap.clone();
+            if let Some((_, yields)) = &overlap {
+                install_schedule(yields.clone());
+            }
+            let mut l = link(PipeParams { capacity: overlap.as_ref().map(|o| o.0).unwrap_or(1 << 22), ..Default::default() }, PipeParams::default());
             let sess = client_session(&mut l, default_padding(), None);
             sess.set_seq(pool.next_seq());
             within(WATCHDOG, sess.clone().start_client()).await;
@@ -162,6 +175,7 @@ impl Family for VerdictFam {
             // the scripted server: a timeline of sends, filled in as SYNs are seen
             let n = case.calls.len();
             let (syn_tx, mut syn_rx) = tokio::sync::mpsc::unbounded_channel::<u32>();
+            let (psh_tx, mut psh_rx) = tokio::sync::mpsc::unbounded_channel::<(u32, Vec<u8>)>();
             tokio::spawn(async move {
                 let mut p = rc::RParser::new();
                 let mut buf = vec![0u8; 4096];
@@ -172,6 +186,9 @@ impl Family for VerdictFam {
                             for f in p.feed(&buf[..k]) {
                                 if f.cmd == rc::SYN {
                                     let _ = syn_tx.send(f.sid);
+                                }
+                                if f.cmd == rc::PSH {
+                                    let _ = psh_tx.send((f.sid, f.data.clone()));
                                 }
                             }
                         }
@@ -185,36 +202,97 @@ impl Family for VerdictFam {
             let mut timeline: Vec<(u64, usize, Vec<u8>)> = Vec::new(); // (at ms, order, bytes)
             let mut order = 0usize;
             let mut own: Vec<Vec<(u64, Ans)>> = Vec::new();
-            for (i, plan) in case.calls.iter().enumerate() {
-                pool.add_idle_session(sess.clone()).await;
-                let cl = client.clone();
-                let h = host.clone();
-                handles.push(tokio::spawn(async move {
-                    let r = cl.create_proxy_stream((h, 80 + i as u16)).await;
-                    (Instant::now(), r.map(|(st, _s)| st.id()).map_err(|e| e.to_string()))
-                }));
-                // wait until this call's SYN has been seen by the server
-                let id = match within(Duration::from_millis(1), syn_rx.recv()).await.flatten() {
-                    Some(id) => id,
-                    None => return Err(Fail::plain("C10.once", format!("call #{i}: no SYN reached the server"))),
-                };
-                ids.push(id);
-                own.push(plan.answers.clone());
+            if overlap.is_some() {
+                // every call takes the session from the pool and goes into open_stream; the next one is
+                // started as soon as the pool is empty again - nobody waits for a SYN to reach the wire
+                for i in 0..n {
+                    pool.add_idle_session(sess.clone()).await;
+                    let cl = client.clone();
+                    let h = host.clone();
+                    handles.push(tokio::spawn(async move {
+                        let r = cl.create_proxy_stream((h, 80 + i as u16)).await;
+                        (Instant::now(), r.map(|(st, _s)| st.id()).map_err(|e| e.to_string()))
+                    }));
+                    for _ in 0..200 {
+                        if pool.idle_count().await == 0 {
+                            break;
+                        }
+                        tokio::task::yield_now().await;
+                    }
+                }
+                // which stream id carries which call's destination (host of host_len bytes, port 80 + i)
+                let dest_len = 2 + case.host_len as usize + 2;
+                let mut per_id: std::collections::BTreeMap<u32, Vec<u8>> = Default::default();
+                let mut by_call: Vec<Option<u32>> = vec![None; n];
+                while by_call.iter().any(|c| c.is_none()) {
+                    let Some((sid, data)) = within(Duration::from_millis(200), psh_rx.recv()).await.flatten() else {
+                        let missing: Vec<usize> = by_call.iter().enumerate().filter(|(_, c)| c.is_none()).map(|(i, _)| i).collect();
+                        return Err(Fail::plain("C10.once", format!("{n} overlapping calls: the destination of call(s) {:?} never reached the server under an id of its own (destination bytes per stream id: {:?})", missing, per_id.iter().map(|(k, v)| (*k, v.len())).collect::<Vec<_>>())));
+                    };
+                    let acc = per_id.entry(sid).or_default();
+                    acc.extend_from_slice(&data);
+                    if acc.len() > dest_len {
+                        return Err(Fail::plain("C10.cross", format!("{n} overlapping calls: stream id {sid} carries {} destination bytes - more than one call was given this id", acc.len())));
+                    }
+                    if acc.len() == dest_len {
+                        let port = u16::from_be_bytes([acc[dest_len - 2], acc[dest_len - 1]]) as usize;
+                        if (80..80 + n).contains(&port) && by_call[port - 80].is_none() {
+                            by_call[port - 80] = Some(sid);
+                        }
+                    }
+                }
+                while syn_rx.try_recv().is_ok() {}
+                ids = by_call.into_iter().map(|c| c.unwrap()).collect();
                 let enc = |id: u32, a: &Ans| rc::encode(&RFrame::new(rc::SYNACK, id, match a { Ans::Ok => Vec::new(), Ans::Err(t) => t.clone() }));
-                if let Some((unknown, a)) = &plan.stray {
-                    if *unknown {
-                        timeline.push((0, order, enc(0x7000_0000 + i as u32, a)));
-                        order += 1;
-                    } else if i > 0 {
-                        // addressed to the previous call: it is an answer *for that id*, so the model counts it there
-                        own[i - 1].push((0, a.clone()));
-                        timeline.push((0, order, enc(ids[i - 1], a)));
+                for (i, plan) in case.calls.iter().enumerate() {
+                    own.push(plan.answers.clone());
+                    if let Some((unknown, a)) = &plan.stray {
+                        if *unknown {
+                            timeline.push((0, order, enc(0x7000_0000 + i as u32, a)));
+                            order += 1;
+                        } else if i > 0 {
+                            own[i - 1].push((0, a.clone()));
+                            timeline.push((0, order, enc(ids[i - 1], a)));
+                            order += 1;
+                        }
+                    }
+                    for (t, a) in &plan.answers {
+                        timeline.push((*t, order, enc(ids[i], a)));
                         order += 1;
                     }
                 }
-                for (t, a) in &plan.answers {
-                    timeline.push((*t, order, enc(id, a)));
-                    order += 1;
+            } else {
+                for (i, plan) in case.calls.iter().enumerate() {
+                    pool.add_idle_session(sess.clone()).await;
+                    let cl = client.clone();
+                    let h = host.clone();
+                    handles.push(tokio::spawn(async move {
+                        let r = cl.create_proxy_stream((h, 80 + i as u16)).await;
+                        (Instant::now(), r.map(|(st, _s)| st.id()).map_err(|e| e.to_string()))
+                    }));
+                    // wait until this call's SYN has been seen by the server
+                    let id = match within(Duration::from_millis(1), syn_rx.recv()).await.flatten() {
+                        Some(id) => id,
+                        None => return Err(Fail::plain("C10.once", format!("call #{i}: no SYN reached the server"))),
+                    };
+                    ids.push(id);
+                    own.push(plan.answers.clone());
+                    let enc = |id: u32, a: &Ans| rc::encode(&RFrame::new(rc::SYNACK, id, match a { Ans::Ok => Vec::new(), Ans::Err(t) => t.clone() }));
+                    if let Some((unknown, a)) = &plan.stray {
+                        if *unknown {
+                            timeline.push((0, order, enc(0x7000_0000 + i as u32, a)));
+                            order += 1;
+                        } else if i > 0 {
+                            // addressed to the previous call: it is an answer *for that id*, so the model counts it there
+                            own[i - 1].push((0, a.clone()));
+                            timeline.push((0, order, enc(ids[i - 1], a)));
+                            order += 1;
+                        }
+                    }
+                    for (t, a) in &plan.answers {
+                        timeline.push((*t, order, enc(id, a)));
+                        order += 1;
+                    }
                 }
             }
             let death_ms = case.death.as_ref().map(|d| d.0);
@@ -326,6 +404,7 @@ impl Family for VerdictFam {
         out.class_if(near, "answer-near-deadline");
         out.class_if(dup, "duplicate-or-stray");
         out.class_if(case.calls.len() >= 2, "racing>=2");
+        out.class_if(case.calls.len() >= 2 && case.overlap.is_some(), "overlapping-open_stream");
         out.class_if(death_during, "death-during-wait");
         out.class_if(case.calls.iter().any(|p| p.answers.is_empty()), "no-answer");
         Ok(out)
